@@ -562,5 +562,7 @@ func c11(r *hx.Run) {
 		}
 	}
 	runOrdered(r, len(samples), func(i int) vCase { return samples[i] })
+	// honest worlds stay accepted whatever was verified through the same options value before, at whatever level
+	cvPairHistories(r, 0x2211, "C11", 1)
 	notes.flush(r, "c11_")
 }
